@@ -95,7 +95,7 @@ def _merge_phases(pha_tpi, pha_tnpi):
 
     # Assign the periods before the first empirical phase timepoint to NaN
     diffs = np.diff(pha)
-    first_empirical_idx = next(idx for idx, xi in enumerate(diffs) if xi > 0)
+    first_empirical_idx = next(idx for idx, xi in enumerate(diffs) if xi != 0)
     pha[:first_empirical_idx] = np.nan
 
     # Assign the periods after the last empirical phase timepoint to NaN
